@@ -5,7 +5,10 @@ import (
 	"io"
 
 	erpc "github.com/henrylee2cn/erpc/v6"
+	"github.com/henrylee2cn/erpc/v6/codec"
+	"github.com/henrylee2cn/erpc/v6/mixer/websocket/pbSubProto/pb"
 	"github.com/henrylee2cn/erpc/v6/socket"
+	"github.com/henrylee2cn/erpc/v6/xfer"
 )
 
 func init() {
@@ -84,4 +87,22 @@ func VX_C04_WSPbStatus(args []int) {
 	vxAssume(pf(w).Unpack(got) == nil)
 	vxAssert(!got.StatusOK() && got.Status(true).Code() == code, "[C04] an error reply's status survives the websocket protobuf sub-protocol")
 	vxCover("c04.wspb.status")
+}
+
+func init() { vxRegister("VX_C12_WSPbUnregistered", VX_C12_WSPbUnregistered) }
+
+// VX_C12_WSPbUnregistered: a frame of the websocket protobuf sub-protocol that
+// names a transfer filter which is not registered (any such id) is refused, not passed through with the filter dropped. args: none
+func VX_C12_WSPbUnregistered(args []int) {
+	id := vxByte("filter")
+	_, regErr := xfer.Get(id)
+	vxAssume(regErr != nil) // any id that is not registered in this program
+	s := &pb.Payload{Seq: 1, Mtype: 1, ServiceMethod: "/a", XferPipe: []byte{id}, Body: []byte("payload")}
+	b, err := codec.ProtoMarshal(s)
+	vxAssume(err == nil)
+	w := &vxMsgBuf{data: b}
+	got := socket.NewMessage(socket.WithNewBody(func(socket.Header) interface{} { return new([]byte) }))
+	err = NewPbSubProtoFunc()(w).Unpack(got)
+	vxAssert(err != nil, "a pipe naming an unregistered filter is refused rather than passed through (websocket protobuf sub-protocol)")
+	vxCover("c12.wspb.unregistered")
 }
